@@ -158,7 +158,9 @@ class SolutionRepository(Repository):
 
         self._parse_single_line(line)
 
-    def _parse_single_line(self, line: str, meta_file: Optional[str] = None) -> None:
+    def _parse_single_line(
+        self, line: str, meta_file: Optional[str] = None, accumulated: bool = False
+    ) -> None:
         req_hash_part, _, source_part = line.partition("#")
         req_hash_part = req_hash_part.strip()
         if not req_hash_part:
@@ -169,10 +171,12 @@ class SolutionRepository(Repository):
 
         req = req_compile.utils.parse_requirement(req_part)
 
+        # An entry gathered from several lines always has the "via" layout; a single
+        # line has it when its comment starts with the word "via" (pip-compile style).
         if (
-            not source_part.strip()
-            or "#" in source_part
-            or source_part.startswith(" via")
+            accumulated
+            or not source_part.strip()
+            or (source_part.strip() + " ").startswith("via ")
         ):
             parts = source_part.strip().split("#")
             in_sources = False
@@ -237,7 +241,9 @@ class SolutionRepository(Repository):
         if self._partial_line and (
             not stripped_line or not stripped_line.startswith(("#", "--"))
         ):
-            self._parse_single_line(self._partial_line, meta_file=meta_file)
+            self._parse_single_line(
+                self._partial_line, meta_file=meta_file, accumulated=True
+            )
             self._partial_line = ""
 
         self._partial_line += stripped_line
